@@ -247,4 +247,13 @@ example : ∃ e, decode [rowOf 2 e1, rowOf 1 e2] = .error e :=
 
 example : decode [rowOf 2 e1, rowOf 1 e2] = .error .decreasing := by decide +kernel
 
+/-- the event id is an opaque field of the parsed row: ids that need CSV quoting in the file (delimiter, quote character,
+    blanks), coordinates within 1e-4 of zero (exponent notation in the file) and an event listed twice all come back as
+    written — `decode_encode` quantifies over every `Event`; one concrete instance -/
+private def e3 : Event := ⟨4/100000, -25/1000000, 1/100000, -299883355000, 1/100000, "ci38457511,us7000abcd"⟩
+private def e4 : Event := ⟨0, 0, 5, 694224000000, 7, "the \"big\" one "⟩
+
+example : decode (encode [[e3, e4, e3, e3], [], [e4]] [true, false] true) = .ok (number [[e3, e4, e3, e3], [], [e4]]) := by
+  decide +kernel
+
 end AsciiCatalogs
